@@ -44,6 +44,7 @@ def run(chk: Check, ctx: Any) -> None:
         "routine-target spellings map to the same kind in the ExplorerScript handler and in the SsbScript listener; labels are keyed by their "
         "identifier text in label/jump/call; string delimiters are removed by slicing exactly one (three) characters per side, never by "
         "str.strip(<character set>); integers go through int(text, 0). Not decided: ANTLR's adaptive prediction on arbitrary token juxtapositions."
+        " (R4, interpreter-based) re-spellings of a base program are compiled (whole compiler evaluated) and must give identical ops, routine table and marks."
     )
     chk.rule("C16-R1", "grammar: skip channel, keyword-before-identifier order, alternative spellings present, generated tables in sync")
     chk.rule("C16-R2", "token positions flow only into source-map calls and error messages; no getText() of composite contexts in compiler code")
